@@ -123,15 +123,71 @@ func BuildStatet[T any](d Opd, conv func(int) T) fp.StateT[int, T] {
 	}
 }
 
+// ObsStatet runs the program from every probe state and then once more from every probe state
+// in reverse order (so every state is used twice and every run is followed by runs from
+// different states). The observation handed back (and compared with the reference by the caller)
+// is the one of the first pass, each run snapshotted at once. A repeated run must return what the
+// first run from that state returned, and every result — kept as returned — must still read the
+// same after all the later runs (see rerun.go).
 func ObsStatet[T any](m fp.StateT[int, T], show func(T) string) string {
-	var b strings.Builder
-	for i, s := range ProfStatet.Probes {
-		if i > 0 {
-			b.WriteByte(';')
-		}
-		t, ns := m(s)
-		b.WriteString(ObsTryRaw(t, show))
-		b.WriteString("@" + strconv.Itoa(ns))
+	probes := ProfStatet.Probes
+	c := Cur
+	raw := func(t fp.Try[T]) string { return ObsTryRaw(t, show) }
+	if c != nil && !Reshowable[T]() {
+		return obsStatetOnce(c, m, raw)
 	}
-	return b.String()
+	keep := Kept[fp.Try[T]]{}
+	first := make([]string, len(probes))
+	for i, s := range probes {
+		t, ns := m(s)
+		snap := raw(t)
+		first[i] = snap + "@" + strconv.Itoa(ns)
+		keep.Add("the run from state "+strconv.Itoa(s), t, snap)
+	}
+	if c != nil {
+		for i := len(probes) - 1; i >= 0; i-- {
+			t, ns := m(probes[i])
+			snap := raw(t)
+			keep.Add("the second run from state "+strconv.Itoa(probes[i]), t, snap)
+			if again := snap + "@" + strconv.Itoa(ns); again != first[i] {
+				c.Fail(KeyRerun, "the same StateT value run from state %d returned %s the first time and %s when run again (runs from other states in between)", probes[i], first[i], again)
+				return strings.Join(first, ";")
+			}
+		}
+		c.W.Add("rerun.runs."+c.P.Pkg, int64(len(probes)))
+		keep.Recheck(c, raw)
+	}
+	return strings.Join(first, ";")
+}
+
+// obsStatetOnce: the result can be shown only once (an Iterator is consumed by showing it). The
+// results of the first pass are kept unread while the program is run again from every probe state
+// in reverse order (those results are read at once); only then the first-pass results are read:
+// they are what the caller compares with the reference, and each must equal what the second run
+// from the same state returned — otherwise a later run changed the storage behind it.
+func obsStatetOnce[T any](c *Cas, m fp.StateT[int, T], raw func(fp.Try[T]) string) string {
+	probes := ProfStatet.Probes
+	ts := make([]fp.Try[T], len(probes))
+	nss := make([]int, len(probes))
+	for i, s := range probes {
+		ts[i], nss[i] = m(s)
+	}
+	second := make([]string, len(probes))
+	for i := len(probes) - 1; i >= 0; i-- {
+		t, ns := m(probes[i])
+		second[i] = raw(t) + "@" + strconv.Itoa(ns)
+	}
+	first := make([]string, len(probes))
+	for i := range probes {
+		first[i] = raw(ts[i]) + "@" + strconv.Itoa(nss[i])
+	}
+	c.W.Add("rerun.runs."+c.P.Pkg, int64(len(probes)))
+	c.W.Add("rerun.read-after-later-runs."+c.P.Pkg, int64(len(probes)))
+	for i := range probes {
+		if first[i] != second[i] {
+			c.Fail(KeyChanged, "the result of the first run from state %d, read after the later runs, is %s; a second run from the same state (read at once) gives %s: a later run changed the storage behind the earlier result, or the runs differ", probes[i], first[i], second[i])
+			break
+		}
+	}
+	return strings.Join(first, ";")
 }
